@@ -1,4 +1,5 @@
 import Harper.Lemmas.PosConv
+import Harper.Props.C03
 /-!
 # C08 — diagnostics and quick-fix edits land exactly on the flagged text
 
@@ -39,6 +40,18 @@ theorem indexToPosition_panics (len16 : Char → Nat) (src : List Char) (i : Nat
 example : indexToPosition len16Ex firstSecnd 12 = .ok ⟨1, 0⟩ := by decide
 example : indexToPosition len16Ex ['a', '😀', '\n', '😀', 'b'] 4 = .ok ⟨1, 2⟩ := by decide
 example : indexToPosition len16Ex ['a'] 2 = .error .sliceOOB := by decide
+
+/-- non-vacuity of the hypothesis `∀ c, 1 ≤ len16 c` carried by the theorems below: the example
+width function (2 for the astral `😀`, 1 otherwise) satisfies it -/
+theorem len16Ex_pos : ∀ c, 1 ≤ len16Ex c := by
+  intro c; unfold len16Ex; split <;> omega
+
+/-- … and so does `char::len_utf16` itself (2 from U+10000 on, else 1), whose values are in {1, 2};
+`😀` is astral -/
+example : ∀ c : Char, (if 0x10000 ≤ c.toNat then 2 else 1 : Nat) = 1 ∨
+    (if 0x10000 ≤ c.toNat then 2 else 1 : Nat) = 2 := by
+  intro c; split <;> simp
+example : len16Ex '😀' = 2 ∧ len16Ex 'a' = 1 ∧ 0x10000 ≤ '😀'.toNat := by decide
 
 /-! ### `position_to_index ∘ index_to_position`: right except on the last line -/
 
@@ -113,6 +126,15 @@ example : lineOf ['a', '\r', '\n', '😀', 'b', '\n', 'c'] 4 < newlines ['a', '\
   decide
 example : positionToIndex len16Ex ['a', '\r', '\n', '😀', 'b', '\n', 'c'] ⟨1, 2⟩ = .ok 4 := by decide
 example : newlines ['a', '😀', 'b'] = 0 := by decide
+
+/-- non-vacuity of `positionToIndex_roundtrip_partial`: the theorem applied to both witnesses
+(middle line of a CRLF text after an astral character; a one-line text) -/
+example : ∃ p, indexToPosition len16Ex ['a', '\r', '\n', '😀', 'b', '\n', 'c'] 4 = .ok p ∧
+    positionToIndex len16Ex ['a', '\r', '\n', '😀', 'b', '\n', 'c'] p = .ok 4 :=
+  positionToIndex_roundtrip_partial len16Ex len16Ex_pos _ 4 (by decide) (Or.inl (by decide))
+example : ∃ p, indexToPosition len16Ex ['a', '😀', 'b'] 2 = .ok p ∧
+    positionToIndex len16Ex ['a', '😀', 'b'] p = .ok 2 :=
+  positionToIndex_roundtrip_partial len16Ex len16Ex_pos _ 2 (by decide) (Or.inr (by decide))
 
 /-- **The round trip is wrong on the last line of a multi-line text** (recorded finding
 `c08-last-line`): in `"First line.\nSecnd line"` index 12 (the `S`) is position (1,0), and
@@ -193,6 +215,31 @@ example : 1 ≤ newlines firstSecnd ∧ lineOf firstSecnd 12 = newlines firstSec
 example : indexToPosition len16Ex ['a', '\n'] 2 = .ok ⟨1, 0⟩ ∧
     positionToIndex len16Ex ['a', '\n'] ⟨1, 0⟩ = .ok 0 := by decide
 
+/-- **Exact characterisation of the round trip**, both directions in one statement: for an index
+inside the text, index → position → index returns the index **iff** the index is not on the last
+line of a text that has at least one `'\n'` (`positionToIndex_roundtrip_partial` is `←`,
+`last_line_always_wrong` gives `→`). -/
+theorem roundtrip_iff (len16 : Char → Nat) (h16 : ∀ c, 1 ≤ len16 c)
+    (src : List Char) (i : Nat) (hi : i ≤ src.length) :
+    (∃ p, indexToPosition len16 src i = .ok p ∧ positionToIndex len16 src p = .ok i) ↔
+      (lineOf src i < newlines src ∨ newlines src = 0) := by
+  constructor
+  · rintro ⟨p, hp, hpi⟩
+    by_cases h : lineOf src i < newlines src ∨ newlines src = 0
+    · exact h
+    · exfalso
+      have hle : lineOf src i ≤ newlines src := (List.take_sublist i src).count_le '\n'
+      obtain ⟨p', k, hp', hk, hlt⟩ := last_line_always_wrong len16 src i hi (by omega) (by omega)
+      rw [hp] at hp'; cases hp'
+      rw [hpi] at hk; cases hk; omega
+  · exact positionToIndex_roundtrip_partial len16 h16 src i hi
+
+/-- non-vacuity of `roundtrip_iff`, the failing side: no position round-trips index 12 of
+`"First line.\nSecnd line"` -/
+example : ¬ ∃ p, indexToPosition len16Ex firstSecnd 12 = .ok p ∧
+    positionToIndex len16Ex firstSecnd p = .ok 12 := by
+  rw [roundtrip_iff len16Ex len16Ex_pos firstSecnd 12 (by decide)]; decide
+
 /-! ### A client reads every range exactly where the lint is -/
 
 /-- Strong form: if no `'\r'` before `i` lacks its `'\n'` *within the text before `i`* (this
@@ -209,6 +256,13 @@ theorem client_decode_encode_prefix (len16 : Char → Nat) (h16 : ∀ c, 1 ≤ l
   simp only [clientOffset]
   rw [List.append_assoc, clientOffsetLC_lines len16 pre (tail ++ rest) _ hp hpre,
     clientOffsetLC_zero, clientCol_tail len16 h16 tail rest ht htl]
+
+/-- non-vacuity of `client_decode_encode_prefix`: a lone `'\r'` AFTER the index does no harm (the
+text as a whole is not `NoLoneCR`, so `client_decode_encode` does not apply) -/
+example : ∃ p, indexToPosition len16Ex ['a', '😀', '\r', 'b'] 2 = .ok p ∧
+    clientOffset len16Ex ['a', '😀', '\r', 'b'] p = 2 :=
+  client_decode_encode_prefix len16Ex len16Ex_pos _ 2 (by decide) (by decide)
+example : ¬ NoLoneCR ['a', '😀', '\r', 'b'] := by decide
 
 /-- `client_decode_encode`: in a text where every `'\r'` is followed by `'\n'`, for every index
 that is not between a `'\r'` and its `'\n'`, the client decodes the server's position as that
@@ -234,6 +288,11 @@ theorem client_decode_encode (len16 : Char → Nat) (h16 : ∀ c, 1 ≤ len16 c)
 example : NoLoneCR ['a', '\r', '\n', '😀', 'b'] ∧ ¬ InsideCRLF ['a', '\r', '\n', '😀', 'b'] 4 := by decide
 example : indexToPosition len16Ex ['a', '\r', '\n', '😀', 'b'] 4 = .ok ⟨1, 2⟩ ∧
     clientOffset len16Ex ['a', '\r', '\n', '😀', 'b'] ⟨1, 2⟩ = 4 := by decide
+
+/-- non-vacuity of `client_decode_encode`: the theorem applied to that witness -/
+example : ∃ p, indexToPosition len16Ex ['a', '\r', '\n', '😀', 'b'] 4 = .ok p ∧
+    clientOffset len16Ex ['a', '\r', '\n', '😀', 'b'] p = 4 :=
+  client_decode_encode len16Ex len16Ex_pos _ 4 (by decide) (by decide) (by decide)
 
 /-- the side condition `¬ InsideCRLF` is needed: index 2 of `"a\r\nb"` is sent as (0,2), which a
 client clamps to the end of line 0 = index 1 (real lints never end there: monitored by the
@@ -261,6 +320,16 @@ theorem diagnostic_range_exact (len16 : Char → Nat) (h16 : ∀ c, 1 ≤ len16 
   obtain ⟨p, hp, hpc⟩ := client_decode_encode len16 h16 src sp.start hcr h1 (by omega)
   obtain ⟨q, hq, hqc⟩ := client_decode_encode len16 h16 src sp.stop hcr h2 hel
   exact ⟨⟨p, q⟩, by simp [spanToRange, hp, hq], hpc, hqc⟩
+
+/-- non-vacuity of `diagnostic_range_exact`: the lint `😀b` on line 1 of a CRLF text; its range is
+(1,0)–(1,3) (the astral character is two columns wide) -/
+example : ∃ r, spanToRange len16Ex ['a', '\r', '\n', '😀', 'b', '\n'] ⟨3, 5⟩ = .ok r ∧
+    clientOffset len16Ex ['a', '\r', '\n', '😀', 'b', '\n'] r.start = 3 ∧
+    clientOffset len16Ex ['a', '\r', '\n', '😀', 'b', '\n'] r.stop = 5 :=
+  diagnostic_range_exact len16Ex len16Ex_pos _ ⟨3, 5⟩ (by decide) (by decide) (by decide)
+    (by decide) (by decide)
+example : spanToRange len16Ex ['a', '\r', '\n', '😀', 'b', '\n'] ⟨3, 5⟩ = .ok ⟨⟨1, 0⟩, ⟨1, 3⟩⟩ := by
+  decide
 
 /-! ### Quick-fix edits -/
 
@@ -304,6 +373,49 @@ example : editOf len16Ex ['a', '\r', '\n', '😀', 'b', '\n'] (.insertAfter ['!'
 example : clientApply len16Ex ['a', '\r', '\n', '😀', 'b', '\n'] ⟨⟨⟨1, 0⟩, ⟨1, 3⟩⟩, ['😀', 'b', '!']⟩ =
     ['a', '\r', '\n', '😀', 'b', '!', '\n'] := by decide
 
+/-- non-vacuity of `textEdit_equiv`: the theorem applied to that edit, and to a replacement on the
+LAST line of a multi-line text without trailing newline (edits are right there: the client decodes
+the range, `position_to_index` is not involved) -/
+example : ∃ e, editOf len16Ex ['a', '\r', '\n', '😀', 'b', '\n'] (.insertAfter ['!']) ⟨3, 5⟩ = .ok e ∧
+    clientApply len16Ex ['a', '\r', '\n', '😀', 'b', '\n'] e =
+      applySpec (.insertAfter ['!']) ⟨3, 5⟩ ['a', '\r', '\n', '😀', 'b', '\n'] :=
+  textEdit_equiv len16Ex len16Ex_pos _ _ ⟨3, 5⟩ (by decide) (by decide) (by decide) (by decide)
+    (by decide)
+example : ∃ e, editOf len16Ex firstSecnd (.replaceWith ['S', 'e', 'c', 'o', 'n', 'd']) ⟨12, 17⟩ = .ok e ∧
+    clientApply len16Ex firstSecnd e =
+      applySpec (.replaceWith ['S', 'e', 'c', 'o', 'n', 'd']) ⟨12, 17⟩ firstSecnd :=
+  textEdit_equiv len16Ex len16Ex_pos _ _ ⟨12, 17⟩ (by decide) (by decide) (by decide) (by decide)
+    (by decide)
+
+/-- `textEdit_equiv` against the model of the REAL `Suggestion::apply` (`Harper/Model/Suggestion.lean`,
+the definition the driver op `apply` of C03 runs) instead of the splice `applySpec` written for this
+file: the client's result is exactly what `Suggestion::apply` returns, which in particular does not
+panic. -/
+theorem textEdit_equiv_apply (len16 : Char → Nat) (h16 : ∀ c, 1 ≤ len16 c)
+    (src : List Char) (sugg : Sugg) (sp : Span)
+    (hse : sp.start ≤ sp.stop) (hel : sp.stop ≤ src.length)
+    (hcr : NoLoneCR src) (h1 : ¬ InsideCRLF src sp.start) (h2 : ¬ InsideCRLF src sp.stop) :
+    ∃ e, editOf len16 src sugg sp = .ok e ∧
+      (match sugg with
+        | .replaceWith r => Suggestion.replaceWith r
+        | .insertAfter r => Suggestion.insertAfter r
+        | .remove => (Suggestion.remove : Suggestion Char)).apply sp src
+        = .ok (clientApply len16 src e) := by
+  obtain ⟨e, he, hc⟩ := textEdit_equiv len16 h16 src sugg sp hse hel hcr h1 h2
+  refine ⟨e, he, ?_⟩
+  rw [hc]
+  cases sugg with
+  | replaceWith r => simpa [applySpec] using C03.apply_replace src r sp hse hel
+  | remove => simpa [applySpec] using C03.apply_remove src sp hse hel
+  | insertAfter r =>
+    have := C03.apply_insertAfter src r sp hse hel
+    rw [this]
+    have htk : src.take sp.stop =
+        src.take sp.start ++ (src.drop sp.start).take (sp.stop - sp.start) := by
+      have := List.take_add (l := src) (i := sp.start) (j := sp.stop - sp.start)
+      rwa [show sp.start + (sp.stop - sp.start) = sp.stop by omega] at this
+    simp [applySpec, htk]
+
 /-! ### Code actions -/
 
 /-- `codeActions_found_partial`: a code-action request whose start is the position of any
@@ -329,6 +441,19 @@ theorem codeActions_found_partial (len16 : Char → Nat) (h16 : ∀ c, 1 ≤ len
 
 /-- non-vacuity: the lint `😀b` on line 1 of three, caret before `b` -/
 example : selects len16Ex ['a', '\n', '😀', 'b', '\n', 'c'] ⟨⟨1, 2⟩, ⟨1, 2⟩⟩ ⟨2, 4⟩ = .ok true := by decide
+
+/-- non-vacuity of `codeActions_found_partial`: the theorem applied to a selection from before `b`
+to the end of the lint `😀b` on line 1 of three -/
+example : ∃ p q, indexToPosition len16Ex ['a', '\n', '😀', 'b', '\n', 'c'] 3 = .ok p ∧
+    indexToPosition len16Ex ['a', '\n', '😀', 'b', '\n', 'c'] 4 = .ok q ∧
+    selects len16Ex ['a', '\n', '😀', 'b', '\n', 'c'] ⟨p, q⟩ ⟨2, 4⟩ = .ok true :=
+  codeActions_found_partial len16Ex len16Ex_pos _ ⟨2, 4⟩ 3 4 (by decide) (by decide) (by decide)
+    (by decide) (Or.inl (by decide)) (Or.inl (by decide))
+
+/-- the hypothesis `i < lint.stop` is sharp: a caret AT the end position of the range ((1,3), index 4)
+does not select the lint -/
+example : selects len16Ex ['a', '\n', '😀', 'b', '\n', 'c'] ⟨⟨1, 3⟩, ⟨1, 3⟩⟩ ⟨2, 4⟩ = .ok false := by
+  decide
 
 /-- on the last line the lint is not found: caret on the `S` of `Secnd` -/
 theorem last_line_no_actions :
